@@ -195,7 +195,9 @@ class CHECK(Check):
             "(ZeroOneLoss|SquareLoss(0,1)), grid_size 2..60, grid_limit in {1/2,1,3/2,2,3,5}, constraint_weight dyadic in "
             "[0,1], exact learner over all 2^k labelings or the 2k threshold labelings, containers DataFrame/ndarray/list/"
             "single-column frames; grid_offset None (85%) or a dyadic Series over the constraint index; includes data where "
-            "a group lacks a label; distinct = distinct case; non-trivial = grid with >= 2 distinct trained labelings or "
+            "a group lacks a label; 12% of the cases run _GridGenerator ALONE on unit bases (1..4 coordinates, any neg_allowed "
+            "pattern, forced or free L1 norm, grid_size 1..125); thorough adds the exhaustive enumeration of all patterns x "
+            "grid_size 1..100 (a test); distinct = distinct case; non-trivial = grid with >= 2 distinct trained labelings or "
             ">= 3 grid points")
     explanation = ("theorems over Model/Grid.lean; the two hypotheses of the distinctness / L1 theorems (unitBasis, basisOK) are "
                    "evaluated by the driver on the bases exported from every fitted estimator; GridSearch.fit returning None "
@@ -209,9 +211,121 @@ class CHECK(Check):
                    "(then only count, distinctness, relabelling, best response, records, selection and delegation are "
                    "checked: non-negativity and the L1 bound are stated for the unshifted grid)")
 
+    # ---------------------------------------------------------------- _GridGenerator alone (unit bases)
+    @staticmethod
+    def _gen_bases(d):
+        idx = [f"p{j}" for j in range(d)] + [f"m{j}" for j in range(d)]
+        pos = [[1 if (i == j) else 0 for j in range(d)] for i in range(d)] + [[0] * d for _ in range(d)]
+        neg = [[0] * d for _ in range(d)] + [[1 if (i == j) else 0 for j in range(d)] for i in range(d)]
+        return idx, pos, neg
+
+    def _gen_impl(self, case):
+        from fairlearn.reductions._grid_search._grid_generator import _GridGenerator
+        na, d = case["na"], len(case["na"])
+        idx, pos, neg = self._gen_bases(d)
+        pos_b = pd.DataFrame([[float(v) for v in r] for r in pos], index=idx, columns=range(d))
+        neg_b = pd.DataFrame([[float(v) for v in r] for r in neg], index=idx, columns=range(d))
+        try:
+            g = _GridGenerator(case["grid_size"], float(F(case["grid_limit"])), pos_b, neg_b,
+                               pd.Series([bool(b) for b in na], index=range(d)), bool(case["force"])).grid
+        except ZeroDivisionError:
+            return {"exc": "ZeroDivisionError"}
+        return {"lam": [[float(v) for v in g[c].tolist()] for c in g.columns], "rows": [str(i) for i in g.index]}
+
+    def _gen_lines(self, case, o):
+        na, d = case["na"], len(case["na"])
+        _, pos, neg = self._gen_bases(d)
+        n0 = float_estimate(na, case["force"], case["grid_size"])
+        head = f"{proto.lst(na, proto.b)} {proto.b(case['force'])} {case['grid_size']}"
+        return [f"grid.lambdas0 {head} {proto.rat(F(case['grid_limit']))} {proto.mat(pos)} {proto.mat(neg)} "
+                f"{n0 if n0 is not None else 0} {proto.lst([0] * (2 * d))}",
+                f"grid.estimate {head} {n0 if n0 is not None else 0}"]
+
+    def _gen_judge(self, case, o, mo):
+        probs = []
+        na, d, gsz, limit = case["na"], len(case["na"]), case["grid_size"], F(case["grid_limit"])
+        idx, pos, neg = self._gen_bases(d)
+        n_or, lam_or = ro.grid_lambdas(na, case["force"], gsz, limit, [[F(v) for v in r] for r in pos],
+                                       [[F(v) for v in r] for r in neg])
+        where = f"_GridGenerator(grid_size={gsz}, grid_limit={limit}, neg_allowed={na}, force_L1_norm={case['force']})"
+        if "exc" in o:
+            if lam_or is not None:
+                probs.append(Problem("property", f"{where} raised {o['exc']}", "C09.grid_exists"))
+        else:
+            lam = o["lam"]
+            if o["rows"] != idx:
+                probs.append(Problem("correspondence", f"{where}: grid index {o['rows']}", "C09.index"))
+            if len(lam) != gsz:
+                probs.append(Problem("property", f"{where}: {len(lam)} vectors", "C09.grid_length"))
+            if len({tuple(round(v, 9) for v in c) for c in lam}) != len(lam):
+                probs.append(Problem("property", f"{where}: duplicate multiplier vectors", "C09.grid_distinct"))
+            for i, c in enumerate(lam):
+                l1 = sum(abs(v) for v in c)
+                if min(c) < -TOL or l1 > float(limit) + TOL or (case["force"] and abs(l1 - float(limit)) > TOL):
+                    probs.append(Problem("property", f"{where}: vector {i} = {c} (negative entry, L1 norm > grid_limit, or L1 "
+                                                     f"norm != grid_limit although forced)", "C09.grid_nonneg / grid_l1_le_limit"))
+                    break
+            if lam_or is None or len(lam_or) != len(lam) or any(
+                    abs(a - float(b_)) > TOL for cm, ci in zip(lam_or, lam) for b_, a in zip(cm, ci)):
+                probs.append(Problem("correspondence", f"{where}: grid differs from the documented one (n_units={n_or})",
+                                     "C09.grid (lattice order / scale / basis map)"))
+        if mo is not None and len(mo) == 2:
+            head = mo[0].split(" ")
+            if head[0].startswith("err") or head[0] == "bad-op":
+                if (lam_or is not None) or head[0] == "bad-op":
+                    probs.append(Problem(mo_kind(), f"{where}: model {mo[0]}, oracle n_units={n_or}", mo_rel("C09.grid_exists")))
+                if "exc" not in o:
+                    probs.append(Problem("correspondence", f"{where}: model {mo[0]} but the implementation returns a grid",
+                                         "C09.grid_exists"))
+            else:
+                n_m, no_over, lam_m = int(head[0]), head[1] == "1", proto.p_mat(head[2])
+                if lam_or is None or n_m != n_or or lam_m != lam_or:
+                    probs.append(Problem(mo_kind() if no_over else "correspondence",
+                                         f"{where}: model grid (n={n_m}) != documented grid (n={n_or})",
+                                         mo_rel("C09.estimate_harmless / source_lattice_eq")))
+                if "lam" in o and (len(lam_m) != len(o["lam"]) or any(
+                        abs(a - float(b_)) > TOL for cm, ci in zip(lam_m, o["lam"]) for b_, a in zip(cm, ci))):
+                    probs.append(Problem("correspondence", f"{where}: grid differs from the model started at the source's float "
+                                                           f"estimate (model n_units={n_m})", "C09.grid (search from the estimate)"))
+            est = mo[1].split(" ")
+            if len(est) == 3:
+                if est[0] != "1":
+                    probs.append(Problem("correspondence", f"{where}: the float estimate "
+                                                           f"{float_estimate(na, case['force'], gsz)} exceeds the exact value of the "
+                                                           f"lifted expression", "C09.estimate_harmless hypothesis"))
+                if n_or is not None and int(est[1]) != n_or:
+                    probs.append(Problem(mo_kind(), f"{where}: model least radius {est[1]} != oracle {n_or}",
+                                         mo_rel("C09.nUnits_least")))
+                n0 = float_estimate(na, case["force"], gsz) or 0
+                if n_or is not None and int(est[2]) != max(n0, int(est[1])):
+                    probs.append(Problem("harness", f"{where}: searchFrom gives {est[2]}, max(n0, least) = {max(n0, int(est[1]))}"))
+        return probs
+
+    def _gen_case(self, rng):
+        d = rng.choice([1, 2, 2, 3, 3, 4])
+        force = rng.random() < 0.4 and d >= 2
+        return {"kind": "gen", "na": [rng.randint(0, 1) for _ in range(d)], "force": force,
+                "grid_size": rng.choice([1, 2, 3, 4, 5, 7, 8, 9, 10, 16, 25, 27, 31, 40, 60, 64, 81, 100, 125]),
+                "grid_limit": rng.choice(["1/2", "1", "2", "3"])}
+
+    def exhaustive(self, tier):
+        """TEST (not a proof): every (neg_allowed, force_L1_norm) pattern for 1..4 coordinates x every grid_size 1..100:
+        the real _GridGenerator against the model started at the source's float estimate, the documented grid, and the
+        no-overshoot predicate of the estimate"""
+        for d in range(1, 5):
+            for force in (False, True):
+                if force and d < 2:
+                    continue
+                for na in itertools.product((0, 1), repeat=d):
+                    for gsz in range(1, 101):
+                        yield {"kind": "gen", "na": list(na), "force": force, "grid_size": gsz, "grid_limit": "2"}
+
     # ---------------------------------------------------------------- generation
     def generate(self, rng, tier):
         while True:
+            if rng.random() < 0.12:
+                yield self._gen_case(rng)
+                continue
             n = rng.choice([4, 5, 6, 6, 7, 8, 8, 9, 10, 12, 14])
             k = rng.choice([2, 3, 3, 4])
             ng = rng.choice([2, 2, 3, 3, 4])
@@ -251,6 +365,13 @@ class CHECK(Check):
             yield case
 
     def shrink(self, case):
+        if case.get("kind") == "gen":
+            for g_ in sorted({1, 2, case["grid_size"] // 2, case["grid_size"] - 1}):
+                if 1 <= g_ < case["grid_size"]:
+                    yield dict(case, grid_size=g_)
+            if len(case["na"]) > 1:
+                yield dict(case, na=case["na"][:-1], force=case["force"] and len(case["na"]) > 2)
+            return
         n = len(case["x"])
         for gs_ in sorted({2, 3, case["grid_size"] // 2, case["grid_size"] - 1}):
             if 2 <= gs_ < case["grid_size"]:
@@ -274,6 +395,8 @@ class CHECK(Check):
 
     # ---------------------------------------------------------------- implementation
     def impl(self, case):
+        if case.get("kind") == "gen":
+            return self._gen_impl(case)
         import fairlearn.reductions as red
         from sklearn.dummy import DummyClassifier
         tag = f"c09-{os.getpid()}-{next(_COUNTER)}"
@@ -348,6 +471,8 @@ class CHECK(Check):
         return P, span, idx, lams, ws, objs, gams
 
     def lines(self, case, o):
+        if case.get("kind") == "gen":
+            return [] if "crash" in o else self._gen_lines(case, o)
         if "crash" in o or "exc" in o:
             return []
         P, span, idx, lams, ws, objs, gams = self._exact(case, o)
@@ -374,6 +499,8 @@ class CHECK(Check):
     def judge(self, case, o, mo):
         if "crash" in o:
             return [Problem("correspondence", f"implementation crashed: {o}", "impl-total")]
+        if case.get("kind") == "gen":
+            return self._gen_judge(case, o, mo)
         if "exc" in o:
             zero = self._zero_weight_points(case)
             if o["exc"] == "ValueError" and zero:
@@ -600,6 +727,8 @@ class CHECK(Check):
         return out
 
     def known(self, case, problem, entries):
+        if case.get("kind") == "gen":
+            return None
         if problem.relation == "C09.zero_weights" and self._zero_weight_points(case):
             for e in entries:
                 if e.get("predicate") == "all_zero_signed_weights":
@@ -612,6 +741,14 @@ class CHECK(Check):
         return None
 
     def signature(self, case, o):
+        if case.get("kind") == "gen":
+            gsz = case["grid_size"]
+            tags = ["kind=generator-only", f"gen.dim={len(case['na'])}", "gen.force_L1" if case["force"] else "gen.free_L1",
+                    f"gen.neg_allowed={sum(case['na'])}/{len(case['na'])}",
+                    "gen.grid_size=" + ("1" if gsz == 1 else "2-9" if gsz < 10 else "10-59" if gsz < 60 else "60+")]
+            if "exc" in o:
+                tags.append("gen.exc=" + o["exc"])
+            return (repr(sorted(case.items())), gsz >= 2, tags)
         tags = [f"moment={case['moment']}", f"rows={len(case['x'])}", f"groups={len(set(case['g']))}",
                 f"values={len(set(case['x']))}", f"kind={case['kind']}", f"container={case.get('container')}",
                 "bound=ratio" if case.get("ratio") else "bound=diff",
